@@ -402,6 +402,7 @@ pub fn dump<'tcx>(tcx: TyCtxt<'tcx>) -> (J, J, J) {
             f.put("inputs", J::Arr(sig.inputs().iter().map(|t| J::s(ty_s(*t))).collect()));
             f.put("output", J::s(ty_s(sig.output())));
             f.put("vis", J::s(if tcx.visibility(did).is_public() { "pub" } else { "restricted" }));
+            f.put("inline", J::s(format!("{:?}", tcx.codegen_fn_attrs(did).inline)));
             fns.push((dp(tcx, did), f));
         } else {
             f.put("ty", J::s(ty_s(tcx.type_of(did).instantiate_identity().skip_norm_wip())));
